@@ -274,6 +274,9 @@ impl World for WorldI {
                 let valid = rng.chance(1, 2);
                 ops.push(IOp::ProbeSetMeta { tok: 2 + rng.below(2) as u8, meta: gen_meta(rng, valid) });
             }
+            if p.faults && rng.chance(1, if focus == "C18" { 12 } else { 60 }) {
+                ops.push(IOp::ProbeSetFlaky { tok: 2 + rng.below(2) as u8, after: rng.range(1, 6) as u8 });
+            }
             if rng.chance(1, 12) {
                 ops.push(IOp::Advance { dseq: *rng.pick(&[1u32, 17, 100, 20_000, 1_100_000]) });
             }
@@ -311,7 +314,7 @@ impl World for WorldI {
                 let its = ex.its();
                 crate::surface::probe_unlisted(ctx, &mut ex.sim, &its, "interchain-token-service", &addrs, &["C05", "C07", "C18", "C06", "C04"], &["C05", "C07", "C11", "C06", "C04"]);
             }
-            if !matches!(op, IOp::Resubmit { .. } | IOp::Advance { .. } | IOp::ProbeSetMeta { .. }) {
+            if !matches!(op, IOp::Resubmit { .. } | IOp::Advance { .. } | IOp::ProbeSetMeta { .. } | IOp::ProbeSetFlaky { .. }) {
                 ex.history.push(op.clone());
             }
             if !ctx.stopped() {
@@ -425,6 +428,7 @@ pub fn run_op(ex: &mut IExec, ctx: &mut Ctx, op: &IOp) {
         IOp::TransferOwnership { to, auth, abort } => ex.do_transfer_ownership(ctx, *to, *auth, *abort),
         IOp::Advance { dseq } => crate::common::advance_ledgers(&ex.sim, ctx, *dseq),
         IOp::ProbeSetMeta { tok, meta } => ex.do_probe_set_meta(ctx, *tok, meta),
+        IOp::ProbeSetFlaky { tok, after } => ex.do_probe_set_flaky(ctx, *tok, *after),
         IOp::Resubmit { .. } => {}
     }
 }
